@@ -655,10 +655,20 @@ where
             return Ok(());
         }
 
-        self.buf_reader.seek(io::SeekFrom::Start(to.byte))?;
-        fill_buf(&mut self.buf_reader)?;
+        // The buffer content is replaced: offsets are relative to the new buffer start,
+        // whatever happens below
         self.search_pos = 0;
         self.buf_pos.reset(0);
+        let res = match self.buf_reader.seek(io::SeekFrom::Start(to.byte)) {
+            Ok(_) => fill_buf(&mut self.buf_reader).map(|_| ()),
+            Err(e) => Err(e),
+        };
+        if let Err(e) = res {
+            // the buffer does not hold the data at the target position: nothing can be
+            // read until another seek succeeds
+            self.state = State::Finished;
+            return Err(Error::from(e));
+        }
         Ok(())
     }
 }
